@@ -70,6 +70,14 @@ def proc_cases(rng, n):
     s3 = dict(base, mark=3, bs=0, cf=[])
     out.append(dict(tree=dict(k='s', ch=[s1, s2]), callers=[reqs[:3], reqs[3:]], nreq=6, cap=8))
     out.append(dict(tree=dict(k='s', ch=[dict(s1), dict(s2), s3]), callers=[reqs[:3], reqs[3:]], nreq=6, cap=8))
+    # ... and through compound servlets whose helper threads forward it between PROCESS queues: a switch of
+    # process members (alone, and followed by one more process stage), an ensemble of process members
+    m2 = dict(base, mark=2, bs=0, cf=[])
+    m3 = dict(base, mark=3, bs=0, cf=[4])
+    s4 = dict(base, mark=4, bs=0, cf=[])
+    out.append(dict(tree=dict(k='s', ch=[dict(s1), dict(k='x', ch=[dict(m2), dict(m3)])]), callers=[reqs[:3], reqs[3:]], nreq=6, cap=8))
+    out.append(dict(tree=dict(k='s', ch=[dict(s1), dict(k='x', ch=[dict(m2), dict(m3)]), s4]), callers=[reqs[:3], reqs[3:]], nreq=6, cap=8))
+    out.append(dict(tree=dict(k='s', ch=[dict(s1), dict(k='e', ff=False, ch=[dict(m2), dict(m3)]), dict(s4)]), callers=[reqs[:3], reqs[3:]], nreq=6, cap=8))
     return out
 
 
@@ -87,24 +95,34 @@ def proc_sample(chk, prop, n):
     lines = []
     done = []
     durs = []
-    for k, case in enumerate(cases):
+    def launch(case):
         t0 = time.time()
         p = subprocess.Popen(['/venv/bin/python', str(core.HARNESS / 'proc_servlet_run.py'), json.dumps(case)],
                              stdout=subprocess.PIPE, stderr=subprocess.PIPE, text=True, env=env, start_new_session=True)
-        bound = max(40.0, 20 * (sorted(durs)[len(durs) // 2] if durs else 2.0))
+        bound = 90.0
         try:
             so, se = p.communicate(timeout=bound)
+            return so, se, None, time.time() - t0
         except subprocess.TimeoutExpired:
             os.killpg(p.pid, signal.SIGKILL)
             p.communicate()
-            chk.violations.append(dict(rule='proc-hang', detail=f'no answer within {bound}s with process servlets',
-                                       key=f'proc-hang:{case["tree"]["k"]}', case=case, events=None, size=core._case_size(case)))
-            continue
+            return '', '', bound, time.time() - t0
         finally:
             try:
                 os.killpg(p.pid, signal.SIGKILL)
             except Exception:  # noqa
                 pass
+
+    from concurrent.futures import ThreadPoolExecutor
+    with ThreadPoolExecutor(max(2, min(6, chk.workers // 2))) as tp:
+        launched = list(tp.map(launch, cases))
+    for k, case in enumerate(cases):
+        so, se, hung, dt = launched[k]
+        if hung:
+            chk.violations.append(dict(rule='proc-hang', detail=f'no answer within {hung}s with process servlets',
+                                       key=f'proc-hang:{case["tree"]["k"]}', case=case, events=None, size=core._case_size(case)))
+            continue
+        t0 = time.time() - dt
         durs.append(time.time() - t0)
         m = [l for l in so.splitlines() if l.startswith('RESULT ')]
         if not m:
